@@ -72,6 +72,17 @@ func init() {
 		}
 		return int64(0)
 	}
+	// sqlite3_value_int: the low 32 bits, sign-extended
+	H["("+sq+".Value).Int"] = func(fr *frame, a []value) value {
+		v := sqlValOf(a[0])
+		if v.kind != 1 {
+			return int(0)
+		}
+		if s, ok := v.i.(sym); ok {
+			return symConv(types.Typ[types.Int], symConv(types.Typ[types.Int32], s).(sym))
+		}
+		return int(int32(v.i.(int64)))
+	}
 	H["("+sq+".Value).Float"] = func(fr *frame, a []value) value {
 		v := sqlValOf(a[0])
 		if v.kind == 2 {
@@ -178,11 +189,12 @@ func init() {
 			return nil
 		}
 	}
+	// riyazali: sqlite3_result_int(ctx, C.int(v)) -- a 32-bit C int
 	H["("+sq+".Context).ResultInt"] = rec(1, func(a []value) value {
 		if s, ok := a[1].(sym); ok {
-			return symConv(types.Typ[types.Int64], s)
+			return symConv(types.Typ[types.Int64], symConv(types.Typ[types.Int32], s).(sym))
 		}
-		return int64(a[1].(int))
+		return int64(int32(a[1].(int)))
 	})
 	H["("+sq+".Context).ResultInt64"] = rec(1, func(a []value) value { return a[1] })
 	H["("+sq+".Context).ResultFloat"] = rec(2, func(a []value) value { return a[1] })
